@@ -56,6 +56,7 @@ prop(
 prop(
     'C16',
     ['A1', 'A2', 'M1', 'M2', 'M3', 'M4', 'M5', 'M6', 'X6'],
+    ['M2g'],
     explanation=(
         'Ownership/effect analysis. A1: all 36 AST / type-token / definition classes are @frozen with generated eq/hash and '
         'define no __eq__/__hash__/__setattr__. A2: metadata is factory=dict, init=False, eq=False and no other AST field is '
@@ -69,7 +70,9 @@ prop(
         'given value, otherwise evolve() + metadata entries copied into the new dict, never shared. M4: .metadata is mutated '
         'only on objects constructed in the same function. M5: cast() returns self or self.but(data_type=self.data_type & t) '
         'and never writes. M6: no copy/__new__/evolve/__dict__ in rewrite/parser/AST modules. Not decided: M2 for operands '
-        'of operator nodes re-wrapped under guards (listed as undecided sites), mutation of metadata by callers.'
+        'of operator nodes re-wrapped under guards in the quick tier; the thorough tier adds M2g, which bounds those operands '
+        'from the guards on the node they are read from (is_not/is_or/... => BOOL, fixed slot types, casts, dispatcher '
+        'guards) and leaves the rest listed as undecided; mutation of metadata by callers.'
     ),
     assumptions=['the _simplify* family and helper calls return fresh nodes or nodes already bounded by their own construction sites (assumed, see DESIGN M2 (g))'],
 )
